@@ -51,6 +51,7 @@ type Opts struct {
 	BulkExplicit  bool // explicit bulk density values (csv soil)
 	HighCorg      bool // organic carbon up to 6 %
 	BeginMonth    int  // start in this month of the start year (0 = see BeginAnyDay)
+	BeginJan1     bool // start on 1 January of the start year
 	RainLadder    bool // every second day of the first two years carries the next step of a rain ladder (1.7 mm steps up to
 	// 500 mm): the day's sub-step count sweeps a contiguous range (every count n, not only those a random series happens to hit)
 	WetTopsoil bool // explicit hydraulic parameters with field capacities of 50-62 vol % (light clays, mucks): the mean water
@@ -149,6 +150,9 @@ func Random(r *rand.Rand, name string, o Opts) *Project {
 	}
 	if o.BeginMonth > 0 {
 		begin = DayNum(c.StartYear, o.BeginMonth, 1) + r.Intn(28)
+	}
+	if o.BeginJan1 {
+		begin = DayNum(c.StartYear, 1, 1)
 	}
 	end := begin + o.Years*365 - between(r, 0, 200)
 	if end < begin+120 {
